@@ -41,6 +41,8 @@ def main():
         mp = os.path.join(d, "meta.json")
         meta = json.load(open(mp))
         hist = meta.setdefault("history", [])
+        if isinstance(hist, str):
+            hist = meta["history"] = [hist]
         for c, r in results.items():
             prev = meta.get("checks_run", {}).get(c)
             if prev and prev.get("verdict") != r["verdict"]:
